@@ -258,6 +258,17 @@ class Cascade:
                         stage_results.append(stage_result)
                         blocked_at = stage.name
                         break
+                    # Fail closed: a gate that raised never lets the stage run
+                    stage_results.append(StageResult(
+                        stage_name=stage.name,
+                        status=StageStatus.BLOCKED,
+                        input_signal=current_signal,
+                        output_signal=None,
+                        error=str(e),
+                        processing_time_ms=(time.time() - stage_start) * 1000
+                    ))
+                    blocked_at = stage.name
+                    continue
 
             # Process stage
             try:
